@@ -23,6 +23,9 @@ package analysis
 // position lies in the closed range (what Range.Contains computes)
 //@ spec rangeHas(r, p) = (p.Line > r.Start.Line || (p.Line == r.Start.Line && p.Character >= r.Start.Character)) && (r.End.Line > p.Line || (r.End.Line == p.Line && r.End.Character >= p.Character))
 // the diagnostics appended since the old state / whether one of them is of a given kind
+// resolutions already made stay; the set of declared names is not touched
+//@ spec resolutionsKept(res) = forallref(v, old(has(res.varResolution, v)) ==> has(res.varResolution, v))
+//@ spec declaredNamesKept(res) = forallstr(k, has(res.declaredVars, k) == old(has(res.declaredVars, k)))
 //@ spec prefixKept(res) = len(res.Diagnostics) >= old(len(res.Diagnostics)) && forall(i, 0, old(len(res.Diagnostics)), res.Diagnostics[i] == old(res.Diagnostics[i]))
 //@ spec grewBy(res, n) = len(res.Diagnostics) == old(len(res.Diagnostics)) + n && forall(i, 0, old(len(res.Diagnostics)), res.Diagnostics[i] == old(res.Diagnostics[i]))
 
@@ -44,6 +47,7 @@ package analysis
 //@   requires [state] resOk(res)
 //@   requires [node] exprOk(lit)
 //@   ensures [state] resOk(res)
+//@   ensures [resolutions-kept] {C19} resolutionsKept(res)
 //@   ensures [undeclared-use-reported] {C16,C17} typeis(lit, *Variable) && !old(has(res.declaredVars, as(lit, *Variable).Name)) ==> len(res.Diagnostics) >= old(len(res.Diagnostics)) + 1 && typeis(res.Diagnostics[old(len(res.Diagnostics))].Kind, *UnboundVariable) && as(res.Diagnostics[old(len(res.Diagnostics))].Kind, *UnboundVariable).Name == as(lit, *Variable).Name && res.Diagnostics[old(len(res.Diagnostics))].Range == as(lit, *Variable).Range
 //@   ensures [declared-use-resolved] {C16,C19} typeis(lit, *Variable) && old(has(res.declaredVars, as(lit, *Variable).Name)) ==> has(res.varResolution, as(lit, *Variable)) && res.varResolution[as(lit, *Variable)] == res.declaredVars[as(lit, *Variable).Name] && forall(i, old(len(res.Diagnostics)), len(res.Diagnostics), !typeis(res.Diagnostics[i].Kind, *UnboundVariable))
 //@   ensures [use-marks-used] {C16} typeis(lit, *Variable) ==> !has(res.unusedVars, as(lit, *Variable).Name)
@@ -82,17 +86,22 @@ package analysis
 //@   requires [state] resOk(res)
 //@   requires [node] destination == nil || ewf(destination)
 //@   ensures [state] {C16,C18} resOk(res)
+//@   ensures [resolutions-kept] {C19} resolutionsKept(res) && declaredNamesKept(res)
 //@   modifies res.Diagnostics, entries(res.varResolution), entries(res.unusedVars)
 //@   loop 1
 //@     invariant [state] resOk(res)
+//@     invariant [kept] resolutionsKept(res) && declaredNamesKept(res)
 //@   loop 2
 //@     invariant [state] resOk(res)
+//@     invariant [kept] resolutionsKept(res) && declaredNamesKept(res)
+//@     assert [portion-variable-resolved] {C16,C19} typeis(allottedItem.Allotment, *parser.Variable) && has(res.declaredVars, as(allottedItem.Allotment, *parser.Variable).Name) ==> has(res.varResolution, as(allottedItem.Allotment, *parser.Variable))
 //@     invariant [sum] sum != nil
 
 //@ func (*CheckResult).checkKeptOrDestination
 //@   requires [state] resOk(res)
 //@   requires [node] target == nil || ewf(target)
 //@   ensures [state] {C16,C18} resOk(res)
+//@   ensures [resolutions-kept] {C19} resolutionsKept(res) && declaredNamesKept(res)
 //@   modifies res.Diagnostics, entries(res.varResolution), entries(res.unusedVars)
 
 //@ func (*CheckResult).checkHasBadAllotmentSum
